@@ -6,10 +6,15 @@ import (
 	"encoding/json"
 	"flag"
 	"fmt"
+	"io"
 	"io/ioutil"
 	"os"
+	"os/exec"
+	"path/filepath"
 	"runtime/pprof"
 	"strconv"
+	"strings"
+	"sync"
 
 	"qedverif/lib"
 	"qedverif/props/clientp"
@@ -95,6 +100,8 @@ func realMain() int {
 		run(c)
 		return c.Finish()
 	case "run":
+		return supervise(os.Args[2], os.Args[3:])
+	case "run-inner":
 		prop := os.Args[2]
 		fs := flag.NewFlagSet("run", flag.ExitOnError)
 		tier := fs.String("tier", envOr("VERIF_TIER", "quick"), "quick|thorough")
@@ -116,6 +123,109 @@ func realMain() int {
 		fmt.Fprintln(os.Stderr, "unknown command", os.Args[1])
 		return 2
 	}
+}
+
+// supervise runs the check in a child process. Some defects kill the whole process (a panic in a
+// goroutine QED spawns, log.Fatalf, an abort inside RocksDB): the supervisor turns such a death into a
+// VIOLATION with the crash output as witness instead of a check that merely "broke".
+func supervise(prop string, args []string) int {
+	self, err := os.Executable()
+	if err != nil {
+		fmt.Fprintln(os.Stderr, err)
+		return 2
+	}
+	if _, ok := runners[prop]; !ok {
+		fmt.Fprintln(os.Stderr, "unknown property", prop)
+		return 2
+	}
+	cmd := exec.Command(self, append([]string{"run-inner", prop}, args...)...)
+	var tailBuf tailWriter
+	cmd.Stdout = io.MultiWriter(os.Stdout, &tailBuf)
+	cmd.Stderr = io.MultiWriter(os.Stderr, &tailBuf)
+	cmd.Stdin = nil
+	err = cmd.Run()
+	code := 0
+	if err != nil {
+		code = -1
+		if ee, ok := err.(*exec.ExitError); ok {
+			code = ee.ExitCode()
+		}
+	}
+	if code == 0 || code == 1 || code == 3 {
+		return code
+	}
+	// abnormal death
+	root := envOr("VERIF_ROOT", "/verif")
+	tier, seed := envOr("VERIF_TIER", "quick"), envOr("VERIF_SEED", "1")
+	for i, a := range args {
+		if a == "--root" && i+1 < len(args) {
+			root = args[i+1]
+		}
+		if a == "--tier" && i+1 < len(args) {
+			tier = args[i+1]
+		}
+		if a == "--seed" && i+1 < len(args) {
+			seed = args[i+1]
+		}
+	}
+	out := tailBuf.String()
+	site := "unknown"
+	lines := strings.Split(out, "\n")
+	for i, ln := range lines {
+		if strings.HasPrefix(ln, "panic:") || strings.HasPrefix(ln, "fatal error:") || strings.Contains(ln, "Assertion") {
+			site = strings.TrimSpace(ln)
+			if len(site) > 120 {
+				site = site[:120]
+			}
+			for _, l2 := range lines[i:] {
+				if strings.HasPrefix(l2, "github.com/bbva/qed/") {
+					f := strings.TrimPrefix(l2, "github.com/bbva/qed/")
+					if j := strings.LastIndex(f, "("); j > 0 {
+						f = f[:j]
+					}
+					site = f
+					break
+				}
+			}
+			break
+		}
+	}
+	os.MkdirAll(filepath.Join(root, "replays"), 0755)
+	path := filepath.Join(root, "replays", fmt.Sprintf("%s-%s-seed%s-crash.log", prop, tier, seed))
+	ioutil.WriteFile(path, []byte(out), 0644)
+	seedN, _ := strconv.ParseInt(seed, 10, 64)
+	ev := map[string]interface{}{
+		"property_id": prop, "tier": tier, "seed": seedN, "level": "other", "wall_s": 0.0, "violations": 1,
+		"coverage": map[string]interface{}{"explanation": fmt.Sprintf("the check process died (exit %d) while driving the code under test: %s; the tail of its output is in %s", code, site, path)},
+	}
+	buf, _ := json.MarshalIndent(ev, "", " ")
+	os.MkdirAll(filepath.Join(root, "evidence"), 0755)
+	ioutil.WriteFile(filepath.Join(root, "evidence", prop+".json"), buf, 0644)
+	fmt.Printf("VIOLATION property=%s replay=%s\n  key=%s:process-died:%s\n  what=the process running the real code died (exit %d): %s\n", prop, path, prop, site, code, site)
+	fmt.Printf("RESULT property=%s violated (the check process was killed by the code under test)\n", prop)
+	return 1
+}
+
+// tailWriter keeps the last 256 KiB written to it.
+type tailWriter struct {
+	mu  sync.Mutex
+	buf []byte
+}
+
+func (t *tailWriter) Write(p []byte) (int, error) {
+	t.mu.Lock()
+	t.buf = append(t.buf, p...)
+	if len(t.buf) > 256<<10 {
+		t.buf = t.buf[len(t.buf)-(256<<10):]
+	}
+	t.mu.Unlock()
+	return len(p), nil
+}
+
+func (t *tailWriter) String() string {
+	t.mu.Lock()
+	defer t.mu.Unlock()
+	return string(t.buf)
 }
 
 func envOr(k, d string) string {
